@@ -407,6 +407,16 @@ static void renderRefs(const Variant& x)
   }
 }
 
+// toDouble() as its IEEE-754 bit pattern (integer -> double conversions are exact or correctly rounded, atof is
+// correctly rounded: the pattern is determined); every NaN prints as `nan`
+static void putDouble(double d)
+{
+  if(d != d) { printf("nan"); return; }
+  uint64 bits;
+  memcpy(&bits, &d, 8);
+  printf("%016llx", (unsigned long long)bits);
+}
+
 static void observe()
 {
   for(int i = 0; i < NV; ++i)
@@ -415,6 +425,8 @@ static void observe()
     if(i) printf(" | ");
     printf("%d %d %d %u %lld %llu %c ", (int)x.getType(), (int)x.toBool(), x.toInt(), x.toUInt(),
            (long long)x.toInt64(), (unsigned long long)x.toUInt64(), x.toDouble() == 0. ? 'z' : 'n');
+    putDouble(x.toDouble());
+    printf(" ");
     putStr(x.toString());
     printf(" ");
     render(x);
